@@ -24,6 +24,12 @@ CHECKS = {
    design_ref="DESIGN.md section 4 C18",
    note="Trusted stubs: the ldmxcsr/stmxcsr thunks (justified by a ground obligation on the byte strings); Python with-statement semantics. Assumed, not decided: hardware observes the mode (last clause of the statement); single thread; the same context object is not re-entered (the code asserts it).",
    technique="contract-based deductive verification: ghost-state contracts on the real methods, bit-vector verification conditions discharged by z3"),
+ "C19": dict(
+   category="proof",
+   text="(A) The integer stepping comprehension is located in real_samples by AST pattern each run (all 3 sites) and proved for ALL num >= 2 and step >= 1 over the integers: length num, offsets 0..step, consecutive offsets differ by floor(step/(num-1)) or one more, strictly increasing iff step >= num-1. (B) The real code object of real_samples runs on SYMBOLIC user bounds (every pair of finite float16/float32 bit patterns with min < max, non-negative / non-positive / zero-straddling, include_subnormal x include_zero) for concrete requested sizes 1..4 (thorough: 1..6, + float64): every feasible path returns without raising, contains the (possibly moved) bounds, stays within them, is non-decreasing before numpy.unique, has no NaN / no subnormals unless requested, and same-sign neighbours are equally spaced up to one ULP.",
+   design_ref="DESIGN.md section 4 C19",
+   note="Layer B is bounded in the requested size (stated bound) though universal in the bounds; layer A is unbounded but covers only the extracted comprehension - the two are not mechanically connected. Not under contract: default-bounds special values (inf/huge/nan plumbing), complex/pair/triple Cartesian products. Assumed: numpy.unique on a non-decreasing array removes repeated neighbours; int(a/b) over-approximated; diff_ulp replaced by its C14 contract; E2 NumPy models.",
+   technique="contract-based deductive verification: AST-extracted kernel as Int/NIA lemmas + symbolic execution of the real code object with per-path QF_FPBV verification conditions (z3)"),
 }
 NA_PENDING = "check not built yet in this session (planned, see DESIGN.md section 4)"
 NA = {
@@ -54,7 +60,7 @@ def main():
       "hooks": {"guard": "FUNCTIONAL_ALGORITHMS_VERIF", "enable": "no hooks are needed: engines instrument through namespaces/subclasses created in /verif; checks import /repo's working tree with PYTHONPATH=/repo", "baseline_off_cmd": "cd /repo && /venv/bin/python -m pytest -ra -q -p no:cacheprovider --timeout=900 --continue-on-collection-errors", "source_commits": [], "add_only": True},
       "engines": [
         {"name": "E0 core", "path": "vf/core.py", "serves_properties": sorted(CHECKS), "kind_free_text": "obligation pool, z3/cvc5 portfolio, verdict protocol, evidence/replay writer"},
-        {"name": "E2 symrun", "path": "vf/symrun.py", "serves_properties": ["C14", "C18"], "kind_free_text": "runs real code objects on symbolic NumPy scalars / ints with shadowed builtins; decision-prefix path forking; per-path VCs"},
+        {"name": "E2 symrun", "path": "vf/symrun.py", "serves_properties": ["C14", "C18", "C19"], "kind_free_text": "runs real code objects on symbolic NumPy scalars / ints with shadowed builtins; decision-prefix path forking; per-path VCs"},
         {"name": "E4 ring", "path": "vf/ring.py", "serves_properties": ["C16"], "kind_free_text": "canonical-form polynomial/rational-function arithmetic with path forking on zero tests"},
       ],
       "checks": checks,
